@@ -230,10 +230,11 @@ class FaultFamily(Family):
 
     chunk = 1
 
-    def __init__(self, name, ex, nq, nt):
+    def __init__(self, name, ex, nq, nt, seam=None):
         self.prop = "C15"
         self.name = name
         self.ex = ex
+        self.seam = seam
         self.n_quick, self.n_thorough = nq, nt
 
     def units(self, tier):
@@ -250,8 +251,13 @@ class FaultFamily(Family):
 
         u = Unit()
         b = base_scenario(sub_seed(getattr(self, "check_seed", 0), "c15f", index), index, self.ex)
+        if self.seam:
+            if self.ex == "threads" and b["ctype"] == "stun_h1":
+                b = base_scenario(sub_seed(getattr(self, "check_seed", 0), "c15f", index),
+                                  index + 1, self.ex)
+            b["seam"] = self.seam
         b["epilogue"] = ["close_pool"]
-        b["c15"] = {"stage": "backend-fault"}
+        b["c15"] = {"stage": "backend-fault" + ("-L2" if self.seam else "")}
         if self.ex == "threads":
             b["policy"] = {"mode": "ops", "op_p": 0.5}
             b.pop("sched", None)
@@ -336,10 +342,16 @@ register("C15", {
             "requests from the caller; oracle = class of every exception reaching the caller "
             "(request call, body reads, close) is a documented httpcore exception, coarse cause "
             "match, termination; all runs but the dry runs are non-trivial",
-    "assumptions": ["seam L1: the backend exception maps of httpcore/_backends are not "
-                    "exercised (the simulated backend raises httpcore's exceptions directly)"],
+    "assumptions": ["the L2 families run the real AnyIOBackend (through AutoBackend) and "
+                    "SyncBackend above fakes of anyio's byte streams / TLSStream.wrap and of "
+                    "socket / SSLSocket, so their exception maps are exercised with the native "
+                    "exceptions (OSError subclasses, socket.timeout, ssl.SSLError, anyio's "
+                    "Broken/Closed resource errors, EndOfStream, TimeoutError); TrioBackend and "
+                    "TLSinTLSStream are not exercised"],
 }, [CorruptFamily(44, 440), ScratchFamily("C15", "scratch-async", 3000, 60000),
     FaultFamily("backend-faults-async", "asyncio", 55, 550),
     FaultFamily("backend-faults-threads", "threads", 22, 220),
+    FaultFamily("native-exceptions-async-L2", "asyncio", 33, 330, seam="L2"),
+    FaultFamily("native-exceptions-threads-L2", "threads", 22, 220, seam="L2"),
     CallerErrorFamily("C15", "caller-errors-async", 600, 6000),
     ProxyReplyFamily("C15", "proxy-replies-async", 1500, 30000)])
